@@ -118,7 +118,7 @@ theorem renderVal_total {K : Consts} {hp : Heap} {need : Nat → Nat} (wn : Well
 
 theorem renderCols_total {K : Consts} {hp : Heap} {need : Nat → Nat} (wn : WellNested K hp need)
     (byId : List (Option Int × String)) (a : Nat) (cols : List String)
-    (h : ∀ n, FuelOk need ((slot hp a n).getD .none) (hp.length + 1)) :
+    (h : ∀ n, FuelOk need ((slot hp a n).getD .none) (2 * hp.length + 2)) :
     ∃ cs, renderCols K hp byId a cols = .ok cs := by
   induction cols with
   | nil => exact ⟨[], rfl⟩
